@@ -99,7 +99,7 @@ where
     let mut dbgs: Vec<Option<String>> = Vec::with_capacity(bound + 4);
     let mut probes: Vec<(usize, ProbeOut<Y>)> = Vec::with_capacity(NPROBES * (bound + 4));
     loop {
-        hints.push(it.size_hint());
+        hints.push(mmv_base::probe::size_hint_of(&it));
         if !liar {
             // nth / last / fold / count / skip on clones taken at this prefix
             let at = ys.len();
